@@ -100,6 +100,58 @@ func c01DropDefaults(d *Defs) *Defs {
 	return out
 }
 
+// c01PinnedCollide: the witness of ¬C01_pass_widening_full (lean/Cog/Props/C01.lean, `wCollide`) as a
+// JSON Schema: `A = { b: { x: string }, c?: <Pkg>AB }` next to a user-defined `<Pkg>AB = { y: integer }`.
+// AnonymousStructsToNamed names the struct of `A.b` `<Pkg>AB` and overwrites the definition.
+const c01PinnedCollide = `{
+  "$schema": "http://json-schema.org/draft-07/schema#",
+  "$ref": "#/definitions/A",
+  "definitions": {
+    "A": {"type": "object", "additionalProperties": false, "required": ["b"],
+      "properties": {"b": {"type": "object", "additionalProperties": false, "required": ["x"], "properties": {"x": {"type": "string"}}},
+                     "c": {"$ref": "#/definitions/PincollidejsAB"}}},
+    "PincollidejsAB": {"type": "object", "additionalProperties": false, "required": ["y"], "properties": {"y": {"type": "integer"}}}
+  }
+}`
+
+// c01Pinned emits the pinned witness rows (`-	pinned <id> …`, then defschemas / srcden rows like a case).
+func c01Pinned(out *bufio.Writer, dir string) {
+	id := "pincollidejs"
+	root := "PincollidejsAB"
+	defer func() {
+		if rec := recover(); rec != nil {
+			fmt.Fprintf(out, "-\tskip %s harness-panic %s\tok\n", id, labOneLine(fmt.Sprint(rec)))
+		}
+	}()
+	path, err := writeSchemaFile(dir, "jsonschema", id, c01PinnedCollide)
+	if err != nil {
+		fmt.Fprintf(out, "-\tskip %s write %s\tok\n", id, labOneLine(err.Error()))
+		return
+	}
+	lr := labRun{Format: "jsonschema", Path: path, Package: id,
+		GoCfg: &golang.Config{GenerateJSONMarshaller: true, GenerateStrictUnmarshaller: true, GenerateEqual: true, GenerateValidate: true, PackageRoot: labGoModule}}
+	pre, err := lr.loadSchemas()
+	if err != nil {
+		fmt.Fprintf(out, "-\tskip %s front-end-error %s\tok\n", id, labOneLine(labFirstLine(err.Error())))
+		return
+	}
+	post, _, err := lr.chainIR("go")
+	if err != nil {
+		fmt.Fprintf(out, "-\tskip %s chain-error %s\tok\n", id, labOneLine(labFirstLine(err.Error())))
+		return
+	}
+	rv, err := newRefValidator("jsonschema", c01PinnedCollide, root)
+	if err != nil {
+		fmt.Fprintf(out, "-\tskip %s no-reference-validator %s\tok\n", id, labOneLine(shortErr(err)))
+		return
+	}
+	doc, _ := parseJV([]byte(`{"y": 1}`))
+	fmt.Fprintf(out, "-\tpinned %s format=jsonschema witness=C01_pass_widening_counterexample\tok\n", id)
+	fmt.Fprintf(out, "defschemas %s.pre %s\tok\tok\n", id, virSchemas(pre))
+	fmt.Fprintf(out, "defschemas %s.post %s\tok\tok\n", id, virSchemas(post))
+	fmt.Fprintf(out, "srcden %s.pre %s.post %s %s %s\tvalid=%v doc=pinned\tok\n", id, id, id, root, doc.sexp(), rv.validate(doc) == nil)
+}
+
 func init() {
 	register("c01-src", func(args map[string]string, out *bufio.Writer) error {
 		n := argInt(args, "n", 30)
@@ -111,6 +163,9 @@ func init() {
 		dir := labWorkDir("c01src")
 		defer os.RemoveAll(dir)
 		faultKinds := []string{"undeclaredKey", "missingRequired", "nullRequired", "wrongType", "notInEnum"}
+		if args["pinned"] != "0" {
+			c01Pinned(out, dir)
+		}
 		for i := from; i < from+n; i++ {
 			profile := i % 3
 			if p, ok := args["profile"]; ok {
